@@ -38,6 +38,17 @@ def scan(m, where):
                 bad.append(('%s: %s %r in equation for %s has a unit of a foreign registry' % (where, type(a).__name__, str(a), eq.lhs),
                             {'where': where}))
                 break
+        # a number that is not a Quantity: only SymPy's structural numbers are allowed (the coefficient -1 of a negation or
+        # difference, exponents); any other bare number multiplied or added into an equation has no unit at all
+        import sympy
+        for sub in sympy.preorder_traversal(eq.rhs):
+            bare = [a for a in getattr(sub, 'args', ()) if isinstance(a, sympy.Number) and not isinstance(a, M.Quantity)]
+            if not bare:
+                continue
+            if (isinstance(sub, sympy.Mul) and any(a not in (-1, 1) for a in bare)) or isinstance(sub, sympy.Add):
+                bad.append(('%s: bare number %s (no Quantity, hence no unit) in equation for %s: %s'
+                            % (where, bare, eq.lhs, str(sub)[:80]), {'where': where}))
+                break
         for side in (eq.lhs, eq.rhs):
             try:
                 m.units.evaluate_units(side)
